@@ -44,6 +44,7 @@ type vmMMU struct {
 	cr3      uintptr
 	allocLog []mm.Frame
 	allocN   int
+	allocSeq int // AllocFrame calls answered with a frame since reset (decides what the frame holds)
 	failAt   int // fail the failAt-th AllocFrame call from now (1-based); 0 = never
 	flushLog []uintptr
 	switches int
@@ -102,6 +103,25 @@ func (m *vmMMU) allocFrame() (mm.Frame, *kernel.Error) {
 	b := m.frameBytes(f)
 	for i := range b {
 		b[i] = vmJunk
+	}
+	// every third frame comes back from an earlier life as a page table (released without scrubbing):
+	// entries that look present, and a last entry that maps the frame itself as a former root's does
+	if m.allocSeq++; m.allocSeq%3 == 0 {
+		x := uint64(m.allocSeq)*0x9E3779B97F4A7C15 + uint64(f)
+		for i := uintptr(0); i < 512; i++ {
+			x ^= x << 13
+			x ^= x >> 7
+			x ^= x << 17
+			switch x & 3 {
+			case 0:
+				*vmEntryAt(f.Address(), i) = 0
+			case 1:
+				*vmEntryAt(f.Address(), i) = (x>>8)<<12&0x000ffffffffff000 | 3
+			default:
+				*vmEntryAt(f.Address(), i) = (uint64(m.arena.Base)+((x>>8)%uint64(m.nframes))<<12)&0x000ffffffffff000 | 0x63
+			}
+		}
+		*vmEntryAt(f.Address(), 511) = uint64(f.Address()) | []uint64{3, 0x23, 0x63}[m.allocSeq/3%3]
 	}
 	m.allocLog = append(m.allocLog, f)
 	return f, nil
